@@ -188,9 +188,9 @@ def describe_agg(evs, ev, inv, bad):
     nline = sum(1 for e in evs if e["ev"] in ("Line", "JLine", "BadLine"))
     end = next((e for e in evs if e["ev"] == "RunEnd"), {})
     brief = {k: ev.get(k) for k in ("ev", "c", "raw", "s", "dropped", "err", "partial", "lines") if k in ev}
-    return ("agg kind=%s via=%s inv=%s bad=%s" % (head.get("kind"), head.get("via"), inv, bad),
-            "real %s aggregator (K=%s queue=%s flush=%sms ids=%s via %s): %d reports, %d lines, dropped=%s: %s at %s" % (
-                head.get("kind"), head.get("k"), head.get("q"), head.get("flush_ms"), head.get("ids"), head.get("via"),
+    return ("agg kind=%s mode=%s inv=%s bad=%s" % (head.get("kind"), head.get("mode"), inv, bad),
+            "real %s aggregator (K=%s queue=%s flush=%sms ids=%s mode %s): %d reports, %d lines, dropped=%s: %s at %s" % (
+                head.get("kind"), head.get("k"), head.get("q"), head.get("flush_ms"), head.get("ids"), head.get("mode"),
                 nrep, nline, end.get("dropped"), bad, brief))
 
 
@@ -199,10 +199,11 @@ def describe_sig(evs, ev, inv, bad):
     sg = next((e for e in evs if e["ev"] == "Signal"), {})
     ex = next((e for e in evs if e["ev"] == "Exit"), {})
     return ("signal sig=%s kind=%s pipe=%s inv=%s bad=%s" % (st.get("sig"), st.get("kind"), st.get("pipe"), inv, bad),
-            "pandora (%s, %s rps, %s instances, %s sink) stopped with SIG%s %s ms into the run: %s reports had returned "
+            "pandora (%s, %s rps, %s instances, %s sink, GOMAXPROCS=%s) stopped with SIG%s %s ms into the run: %s reports had returned "
             "before the signal, %s begun at exit; result has %s lines (+%s counted drops), last line complete=%s, "
             "aggregator returned before exit=%s, exit status %s: %s" % (
                 st.get("kind"), st.get("rps"), st.get("inst"), "slow pipe" if st.get("pipe") else "file",
+                st.get("gomaxprocs") or "default",
                 st.get("sig"), st.get("after_ms"), sg.get("returned_before"), ex.get("entered"), ex.get("lines"),
                 ex.get("dropped"), ex.get("last_complete"), ex.get("agg_returned"), ex.get("status"), bad))
 
@@ -232,8 +233,9 @@ def run(tier, v):
     ncases, cstates, ctrans, csamples = format_cases(v, vdrive, d)
     # M1 in-process
     agg_path = os.path.join(d, "agg.ndjson")
-    nruns, neng = (5000, 300) if thorough else (300, 24)
-    vlib.run_driver(vdrive, ["agg", "-out", agg_path, "-runs", str(nruns), "-engine", str(neng)], timeout=3000)
+    nruns, neng, ncan = (5000, 300, 700) if thorough else (300, 24, 40)
+    vlib.run_driver(vdrive, ["agg", "-out", agg_path, "-runs", str(nruns), "-engine", str(neng), "-cancel", str(ncan)],
+                    timeout=3000)
     rows = vlib.read_ndjson(agg_path)
     agg_validated, agg_states = validate(v, "TraceAggregator", rows, d, describe_agg, "agg")
     nrep = sum(1 for r in rows if r["ev"] == "Report")
@@ -250,7 +252,7 @@ def run(tier, v):
     samples = []
     for e in exits[:3]:
         s_ = starts[e["run"]]
-        samples.append({"process": {k: s_[k] for k in ("kind", "sig", "after_ms", "rps", "inst", "pipe")},
+        samples.append({"process": {k: s_[k] for k in ("kind", "sig", "after_ms", "rps", "inst", "pipe", "gomaxprocs")},
                         "returned_before_signal": sigs.get(e["run"], {}).get("returned_before"),
                         "exit": {k: e[k] for k in ("status", "entered", "returned", "lines", "dropped", "last_complete", "agg_returned", "wait_ms")}})
     run1 = [r for r in rows if r["run"] == 1]
@@ -264,16 +266,19 @@ def run(tier, v):
         "samples": samples,
         "design_tlc": per,
         "in_process_runs": {"validated": agg_validated, "events": len(rows), "reports": nrep, "lines": nlines,
-                            "dropped": ndrop, "runs_with_drops": droprun, "engine_runs": neng, "trace_spec_states": agg_states},
+                            "dropped": ndrop, "runs_with_drops": droprun, "engine_runs": neng, "engine_runs_cancelled_midway": ncan,
+                            "modes": {m: sum(1 for r in rows if r["ev"] == "Run" and r["mode"] == m)
+                                      for m in ("normal", "late", "burst", "engine", "cancel")},
+                            "trace_spec_states": agg_states},
         "signal_runs": {"validated": sig_validated, "signalled": len(sigs), "self_ended": len(exits) - len(sigs),
                         "forced": sum(1 for e in exits if e.get("forced")),
                         "late_reports_lost": sum(e["entered"] - e["lines"] - e["dropped"] for e in exits),
                         "reports": sum(e["entered"] for e in exits), "trace_spec_states": sig_states},
         "format_cases": {"cases": ncases, "tlc_states": cstates},
         "evaluations": ncases + agg_validated + sig_validated,
-        "distinct_nontrivial": ncases + len({(r["kind"], r["k"], r["q"], r["flush_ms"], r["ids"], r["via"]) for r in rows if r["ev"] == "Run"}),
+        "distinct_nontrivial": ncases + len({(r["kind"], r["k"], r["q"], r["flush_ms"], r["ids"], r["mode"]) for r in rows if r["ev"] == "Run"}),
         "rule": "format cases: the complete abstract case space of PhoutCases.tla (distinct by construction); in-process "
-                "runs: distinct (kind, K, queue, flush, ids, via) tuples; every run reports >= 0 seeded samples",
+                "runs: distinct (kind, K, queue, flush, ids, mode) tuples; every run reports >= 0 seeded samples",
         "exhaustive": False,
     }
     return "model_checking", cov, [
